@@ -94,8 +94,14 @@ func marshalMultipartMessageBody(proto int, withOrigDgram bool, data []byte, ext
 		if withOrigDgram {
 			switch proto {
 			case iana.ProtocolICMP:
+				if dataLen/4 > 255 {
+					return nil, errInvalidBody
+				}
 				b[1] = byte(dataLen / 4)
 			case iana.ProtocolIPv6ICMP:
+				if dataLen/8 > 255 {
+					return nil, errInvalidBody
+				}
 				b[0] = byte(dataLen / 8)
 			}
 		}
